@@ -500,6 +500,8 @@ Proof. vm_compute. split; reflexivity. Qed.
 
 (* ===================================================================== 8. BrainT1Segmentation.convert *)
 From NV.C13 Require Import Proofs6.
+Close Scope R_scope.
+Open Scope Q_scope.
 (* convert = mixing-matrix product followed by arg-max of the MIXED row.  For a K-class
    posterior on the simplex and a mixing matrix whose K rows are simplex points of length T
    (the '3k', '4k', '5k' matrices, partial-volume rows, ...) the reported tissue posterior is
